@@ -186,8 +186,20 @@ Proof. exact assign_complete_flat_reachable. Qed.
 Theorem C08_assign_complete_refuted :
   exists st st', reachable st /\ unpositioned (s_tree st) (s_store st)
                  /\ widths_fit (s_len st) (s_tree st) (s_store st)
-                 /\ assign_fields st = (st', Some E_VALUE).
+                 /\ assign_fields st = (st', Some E_VALUE)
+                 /\ exclusive_children (s_tree st) = false.
 Proof. exact assign_complete_refuted. Qed.
+
+(* R: the other premise of the proved part is needed as well: when fields are added after an earlier
+   assign_fields (nothing is ever positioned explicitly), the positions fixed by the first layout can leave
+   no room although the hierarchy is exclusive and the widths fit.  Length 4; a (1 bit); x (1 bit) under
+   a=0; assign_fields; y (3 bits) under a=1; assign_fields raises ValueError. *)
+Theorem C08_assign_complete_incremental_refuted :
+  exists st st', reachable st /\ exclusive_children (s_tree st) = true
+                 /\ widths_fit (s_len st) (s_tree st) (s_store st)
+                 /\ assign_fields st = (st', Some E_VALUE)
+                 /\ ~ unpositioned (s_tree st) (s_store st).
+Proof. exact assign_complete_incremental_refuted. Qed.
 
 (* R: the code as found (before fix df25254) never tried the last position: one 8-bit field in an 8-bit
    bit field failed; the repaired scan lays it out. *)
